@@ -307,6 +307,8 @@ def describe(w):
         return dict(kind="assign", t=0, e=("mul", (w[1], ("mul", A(1), A(2))), A(2)), float=True)
     if k == "ffb" and w[1] in ("pow", "atan2"):
         return dict(kind="assign", t=0, e=(w[1], A(1), A(2)), float=True)
+    if k == "ffbn" and w[1] in ("pow", "atan2"):
+        return dict(kind="assign", t=0, e=("mul", (w[1], A(1), A(2)), A(2)), float=True)
     if k == "ffbl" and w[1] in ("pow", "atan2"):
         return dict(kind="assign", t=0, e=(w[1], C(w[3]), A(1)), float=True)
     if k == "ffbr" and w[1] == "pow":
@@ -339,7 +341,7 @@ STMT_KINDS = ["copy", "neg", "bin", "binsl", "binsr", "binal", "binar", "n1", "n
               "spre", "elr", "elrc", "elw", "elc", "elcp", "elx", "fsin", "fsqrt", "fexpm", "fxcopy", "fxbin", "fxsrc", "fxff",
               "fxbcp", "fxbca", "fxcmp", "fxred",
               "mm", "mmsl", "mmsr", "mmal", "mmar", "mmn1", "mmn2", "mmred", "ab", "abn",
-              "ffn", "ffnn", "ffb", "ffbl", "ffbr", "dvx"]
+              "ffn", "ffnn", "ffb", "ffbl", "ffbr", "ffbn", "dvx"]
 
 
 # statement kinds of drv_arrayad_s5.cpp that C09 emits itself (dvx has a C03 model and oracle since the diag_vector
